@@ -247,7 +247,7 @@ func cmdCheck(args []string) int {
 	timeout := 6
 	two := false
 	if *tier == "thorough" {
-		timeout = 60
+		timeout = 150
 		two = true
 	}
 	runner, ok := propRunners[*prop]
@@ -321,6 +321,10 @@ func runContractProperty(e *Engine, res *checkResult, timeout int, two bool, wor
 		fc := e.contractOf(f)
 		for _, o := range ft.obls {
 			if hasProp(o.Props, p) || (len(o.Props) == 0 && fc != nil && contractMentions(fc, p)) || (o.Cover && fc != nil && contractMentions(fc, p)) {
+				if hasProp(o.Props, "slow") && res.tier != "thorough" {
+					res.extra["slow_obligations_checked_in_thorough_tier_only"] = appendUniq(strs(res.extra["slow_obligations_checked_in_thorough_tier_only"]), o.Name)
+					continue
+				}
 				obls = append(obls, o)
 			}
 		}
@@ -933,4 +937,11 @@ func buildBoundedRunner(res *checkResult, work string) (string, []string, bool) 
 		return "", nil, false
 	}
 	return bin, env, true
+}
+
+func strs(v any) []string {
+	if l, ok := v.([]string); ok {
+		return l
+	}
+	return nil
 }
